@@ -3,6 +3,7 @@
 package bind
 
 import (
+	"bytes"
 	"fmt"
 	"net"
 	"reflect"
@@ -62,7 +63,54 @@ func u64P(b []byte) *uint64 {
 	v := fromBE(b)
 	return &v
 }
-func cp(b []byte) []byte { return append([]byte{}, b...) }
+// cp copies a byte-string argument for the library. With the guard on, the copy is handed over as a
+// slice with eight spare bytes of capacity behind it, filled with a sentinel - the way a caller hands
+// over a sub-slice of a larger buffer whose following bytes belong to something else. GuardCheck
+// reports an argument whose own bytes or whose neighbouring bytes were written.
+func cp(b []byte) []byte {
+	if !guardOn {
+		return append([]byte{}, b...)
+	}
+	buf := make([]byte, len(b)+8)
+	copy(buf, b)
+	for i := len(b); i < len(buf); i++ {
+		buf[i] = guardByte
+	}
+	guards = append(guards, guardReg{buf: buf, n: len(b), want: append([]byte{}, b...)})
+	return buf[:len(b):len(buf)]
+}
+
+const guardByte = 0xA5
+
+type guardReg struct {
+	buf  []byte
+	n    int
+	want []byte
+}
+
+var (
+	guardOn bool
+	guards  []guardReg
+)
+
+// GuardReset switches the argument guard on (or off) and forgets the arguments registered so far.
+func GuardReset(on bool) { guardOn, guards = on, nil }
+
+// GuardCheck returns a description of the first byte-string argument that was modified, or whose
+// spare capacity was written to, since GuardReset ("" if none).
+func GuardCheck() string {
+	for _, g := range guards {
+		for i := g.n; i < len(g.buf); i++ {
+			if g.buf[i] != guardByte {
+				return fmt.Sprintf("the %d bytes behind a %d-byte argument %x (its spare capacity, which belongs to the caller) were overwritten: now %x", len(g.buf)-g.n, g.n, g.want, g.buf[g.n:])
+			}
+		}
+		if !bytes.Equal(g.buf[:g.n], g.want) {
+			return fmt.Sprintf("a byte-string argument was modified: %x became %x", g.want, g.buf[:g.n])
+		}
+	}
+	return ""
+}
 
 func noMask(f func(val []byte) *of.MatchField) func(val, mask []byte) *of.MatchField {
 	return func(val, mask []byte) *of.MatchField {
